@@ -67,7 +67,8 @@ fn gen_output(rng: &mut Rng, must_match_early: bool) -> Vec<u8> {
 pub fn gen_workload(sub: u64) -> Workload {
     let mut rng = Rng::new(sub);
     let kind = match rng.below(12) {
-        0..=4 => "pre",
+        0..=3 => "pre",
+        4 => "pre-glob-negated",
         5..=6 => "pre-glob",
         7..=8 => "zstub",
         9 => "zreal",
@@ -93,11 +94,11 @@ pub fn gen_workload(sub: u64) -> Workload {
     for i in 0..nf {
         let dir = if rng.chance(1, 3) { "sub/" } else { "" };
         let through_child = match kind.as_str() {
-            "pre-glob" | "zstub" | "zreal" => rng.chance(2, 3),
+            "pre-glob" | "pre-glob-negated" | "zstub" | "zreal" => rng.chance(2, 3),
             _ => true,
         };
         let ext = match (kind.as_str(), through_child) {
-            ("pre-glob", true) => "sel",
+            ("pre-glob", true) | ("pre-glob-negated", true) => "sel",
             ("zstub", true) => ["gz", "bz2", "xz"][rng.below(3)],
             ("zreal", true) => ["gz", "bz2", "xz"][rng.below(3)],
             _ => "txt",
@@ -232,6 +233,8 @@ pub fn run_workload(sub: u64, acc: &mut Acc, ctx: &Ctx, _thorough: bool) {
     match w.kind.as_str() {
         "pre" => args.extend(["--pre".into(), STUB.into()]),
         "pre-glob" => args.extend(["--pre".into(), STUB.into(), "--pre-glob".into(), "*.sel".into()]),
+        // only negated globs: everything that is not excluded goes through the command
+        "pre-glob-negated" => args.extend(["--pre".into(), STUB.into(), "--pre-glob".into(), "!*.txt".into()]),
         "zstub" => {
             let bin = scratch.join("bin");
             let _ = std::fs::create_dir_all(&bin);
